@@ -12,7 +12,7 @@ RULE = ("isvalidaa / isvalidcdr3 on every string up to length 4 over {C,A,F,W,x,
         "non-trivial = a cell that standardisation changes / a key present in only some tables")
 ASSUMPTIONS = ["tidytcells is the oracle for what a cell standardises to (property wording); what is decided is option routing, cell locality and input preservation",
                "without suffixes the value columns of the tables have distinct names (pandas would otherwise add its own _x/_y suffixes)"]
-REQUIRED_CLASSES = {"all": ["rotating-col_mapper", "object-dtype-table", "df_old-keyword", "same-text-in-tr-and-mhc-column", "empty-string", "non-string-object", "missing-cell", "junk-cell", "option-sensitive-cell", "col_mapper", "shifted-index", "extra-column", "merge-on-column", "merge-suffixes", "merge-partial-keys", "merge-repeated-keys", "merge-identical-sorted-key-sequences", "merge-index-named-like-key-column", "merge-table-without-rows", "table-without-rows"]}
+REQUIRED_CLASSES = {"all": ["rotating-col_mapper", "object-dtype-table", "df_old-keyword", "same-text-in-tr-and-mhc-column", "empty-string", "non-string-object", "missing-cell", "junk-cell", "option-sensitive-cell", "col_mapper", "shifted-index", "extra-column", "merge-on-column", "merge-suffixes", "merge-partial-keys", "merge-repeated-keys", "merge-identical-sorted-key-sequences", "merge-index-named-like-key-column", "merge-table-without-rows", "table-without-rows", "options-by-position"]}
 MIN_OUTCOMES = 10
 AA = set("ACDEFGHIKLMNPQRSTVWY")
 
@@ -214,6 +214,11 @@ def _check_rows(acc, case):
     if multi or len(cols) > 4:
         data["extra"] = list(range(n))
         data["Extra text"] = ["tRaV1-1"] * n
+        # extra columns whose labels merely begin like / contain a standard column name
+        data["TRBV_as_submitted"] = ["tcrbv6s1*01"] * n
+        data["TRAJ quality"] = ["TRAJ12*01 (low)"] * n
+        data["my CDR3A"] = ["cassf"] * n
+        data["MHCA_raw"] = ["HLA-A2"] * n
         acc.cls("extra-column")
     df = pd.DataFrame(data)
     if variant in (2, 3):
@@ -235,6 +240,19 @@ def _check_rows(acc, case):
         r = acc.call(pyrepseq.standardize_dataframe, df_old=df, suppress_warnings=True, **kw)
     else:
         r = acc.call(pyrepseq.standardize_dataframe, df, suppress_warnings=True, **kw)
+    if not via_old and not raised(r) and o != OPT_DEFAULT and (n + len(cols)) % 2 == 0:
+        # the same options handed over by position, in the documented order of the signature
+        import inspect
+        names = [p_ for p_ in inspect.signature(pyrepseq.standardize_dataframe).parameters]
+        doc_order = ["df", "col_mapper", "standardize", "species", "tcr_enforce_functional", "tcr_precision", "mhc_precision", "strict_cdr3_standardization", "suppress_warnings"]
+        if names[:len(doc_order)] == doc_order or set(doc_order) <= set(names):
+            full = dict(col_mapper=None, standardize=True, species="HomoSapiens", tcr_enforce_functional=True, tcr_precision="gene", mhc_precision="gene", strict_cdr3_standardization=False, suppress_warnings=True)
+            full.update(kw)
+            rp = acc.call(pyrepseq.standardize_dataframe, df, *[full[k_] for k_ in doc_order[1:]])
+            acc.cls("options-by-position")
+            if raised(rp) or not rp.equals(r):
+                acc.fail("standardize_dataframe/options-by-position-differ-from-keywords", case, r.to_dict("list"), rp if raised(rp) else rp.to_dict("list"))
+                return
     what = "multi-row" if multi else ("one-cell" if len(cols) == 1 else "one-row")
     if raised(r):
         acc.fail("standardize_dataframe/%s/raised-%s" % (what, r.type), case, "a table", r)
@@ -269,7 +287,7 @@ def _check_rows(acc, case):
             if not _same_cell(e, x):
                 changed = True
     for c in df.columns:
-        if c in ("extra", "Extra text") and list(r[c]) != list(df[c]):
+        if c in ("extra", "Extra text", "TRBV_as_submitted", "TRAJ quality", "my CDR3A", "MHCA_raw") and list(r[c]) != list(df[c]):
             acc.fail("standardize_dataframe/non-standard-column-changed", case, list(df[c]), list(r[c]))
             return
     if not o["standardize"]:
